@@ -22,6 +22,41 @@ use std::time::Instant;
 mod json;
 use json::J;
 
+// counting allocator (per-thread counter, const-initialised: counting never allocates)
+thread_local! {
+    static ALLOCS: std::cell::Cell<u64> = const { std::cell::Cell::new(0) };
+}
+struct CountingAlloc;
+unsafe impl std::alloc::GlobalAlloc for CountingAlloc {
+    unsafe fn alloc(&self, l: std::alloc::Layout) -> *mut u8 {
+        let _ = ALLOCS.try_with(|c| c.set(c.get() + 1));
+        std::alloc::System.alloc(l)
+    }
+    unsafe fn dealloc(&self, p: *mut u8, l: std::alloc::Layout) {
+        std::alloc::System.dealloc(p, l)
+    }
+    unsafe fn realloc(&self, p: *mut u8, l: std::alloc::Layout, n: usize) -> *mut u8 {
+        let _ = ALLOCS.try_with(|c| c.set(c.get() + 1));
+        std::alloc::System.realloc(p, l, n)
+    }
+}
+#[global_allocator]
+static GLOBAL: CountingAlloc = CountingAlloc;
+fn allocs() -> u64 {
+    ALLOCS.with(|c| c.get())
+}
+/// C06 mode: (de)serialization of containers with integer payloads through non-allocating
+/// formats takes nothing from the allocator
+static PROP06: std::sync::atomic::AtomicBool = std::sync::atomic::AtomicBool::new(false);
+fn noalloc_fail(what: &str, a0: u64, ok: bool) -> Option<String> {
+    let d = allocs() - a0;
+    if PROP06.load(std::sync::atomic::Ordering::Relaxed) && ok && d > 0 {
+        Some(format!("{d} allocator request(s) during {what} (integer payloads, a format that does not allocate)"))
+    } else {
+        None
+    }
+}
+
 // ------------------------------------------------------------------------------------------
 // recording serializer
 // ------------------------------------------------------------------------------------------
@@ -475,7 +510,11 @@ fn run_map<const N: usize, const M: usize>(case: &Case) -> Out {
     // (2b) the recorded token stream through a self-delimiting format, with and without size hints
     for hint in [true, false] {
         let mut de = TokDe::new(&toks, hint);
+        let a0 = allocs();
         let r = silent(|| Map::<u8, u32, M>::deserialize(&mut de));
+        if let Some(v) = noalloc_fail(if hint { "Map::deserialize from a token stream with exact size hints" } else { "Map::deserialize from a token stream without size hints" }, a0, matches!(r, Ok(Ok(_)))) {
+            fail(v);
+        }
         out.st.checks += 1;
         out.st.token_roundtrips += 1;
         match r {
@@ -498,7 +537,11 @@ fn run_map<const N: usize, const M: usize>(case: &Case) -> Out {
             place.insert(200 + i as u8, 7);
         }
         let mut de = TokDe::new(&toks, case.ops.len() % 2 == 0);
+        let a0 = allocs();
         let r = silent(|| <Map<u8, u32, M> as Deserialize>::deserialize_in_place(&mut de, &mut place));
+        if let Some(v) = noalloc_fail("Map::deserialize_in_place from a token stream", a0, matches!(r, Ok(Ok(_)))) {
+            fail(v);
+        }
         out.st.checks += 1;
         out.st.in_place += 1;
         match r {
@@ -514,14 +557,22 @@ fn run_map<const N: usize, const M: usize>(case: &Case) -> Out {
     // (3) bincode
     let mut buf = [0u8; 512];
     let cfg = bincode::config::legacy();
+    let a0 = allocs();
     let r = silent(|| bincode::serde::encode_into_slice(&m, &mut buf, cfg));
+    if let Some(v) = noalloc_fail("Map::serialize into a byte slice (bincode)", a0, matches!(r, Ok(Ok(_)))) {
+        fail(v);
+    }
     out.st.checks += 1;
     match r {
         Ok(Ok(n)) => {
             if n != 8 + len * 5 {
                 fail(format!("bincode (legacy) wrote {n} bytes for {len} entries, expected {}", 8 + len * 5));
             }
+            let a0 = allocs();
             let r2 = silent(|| bincode::serde::decode_from_slice::<Map<u8, u32, M>, _>(&buf[..n], cfg));
+            if let Some(v) = noalloc_fail("Map::deserialize from a byte slice (bincode)", a0, matches!(r2, Ok(Ok(_)))) {
+                fail(v);
+            }
             out.st.bincode_roundtrips += 1;
             match r2 {
                 Ok(Ok((d, used))) => {
@@ -634,7 +685,11 @@ fn run_set<const N: usize, const M: usize>(case: &Case) -> Out {
     }
     for hint in [true, false] {
         let mut de = TokDe::new(&toks, hint);
+        let a0 = allocs();
         let r = silent(|| Set::<u16, M>::deserialize(&mut de));
+        if let Some(v) = noalloc_fail(if hint { "Set::deserialize from a token stream with exact size hints" } else { "Set::deserialize from a token stream without size hints" }, a0, matches!(r, Ok(Ok(_)))) {
+            fail(v);
+        }
         out.st.checks += 1;
         out.st.token_roundtrips += 1;
         match r {
@@ -669,14 +724,22 @@ fn run_set<const N: usize, const M: usize>(case: &Case) -> Out {
     }
     let mut buf = [0u8; 512];
     let cfg = bincode::config::legacy();
+    let a0 = allocs();
     let r = silent(|| bincode::serde::encode_into_slice(&s, &mut buf, cfg));
+    if let Some(v) = noalloc_fail("Set::serialize into a byte slice (bincode)", a0, matches!(r, Ok(Ok(_)))) {
+        fail(v);
+    }
     out.st.checks += 1;
     match r {
         Ok(Ok(n)) => {
             if n != 8 + len * 2 {
                 fail(format!("bincode (legacy) wrote {n} bytes for {len} elements, expected {}", 8 + len * 2));
             }
+            let a0 = allocs();
             let r2 = silent(|| bincode::serde::decode_from_slice::<Set<u16, M>, _>(&buf[..n], cfg));
+            if let Some(v) = noalloc_fail("Set::deserialize from a byte slice (bincode)", a0, matches!(r2, Ok(Ok(_)))) {
+                fail(v);
+            }
             out.st.bincode_roundtrips += 1;
             match r2 {
                 Ok(Ok((d, used))) => {
@@ -971,14 +1034,19 @@ fn main() {
     let mut args: Vec<String> = std::env::args().collect();
     // serdechk [C05|C20] quick|thorough|--replay <file>
     let mut pname = "C20";
-    if args.get(1).map(|s| s == "C05" || s == "C20").unwrap_or(false) {
+    if args.get(1).map(|s| s == "C05" || s == "C20" || s == "C06").unwrap_or(false) {
         if args[1] == "C05" {
             pname = "C05";
             PROP05.store(true, std::sync::atomic::Ordering::Relaxed);
         }
+        if args[1] == "C06" {
+            pname = "C06";
+            PROP06.store(true, std::sync::atomic::Ordering::Relaxed);
+        }
         args.remove(1);
     }
     let c05 = pname == "C05";
+    let c06 = pname == "C06";
     let mode = args.get(1).map(|s| s.as_str()).unwrap_or("quick");
     if mode == "--replay" {
         let path = args.get(2).expect("file");
@@ -1004,7 +1072,7 @@ fn main() {
         let hs: Vec<_> = (0..16usize)
             .map(|wk| {
                 sc.spawn(move || {
-                    let cfg = Config { cases, failure_persistence: None, rng_seed: RngSeed::Fixed(mix(mix(seed, if c05 { 505 } else { 2020 }), wk as u64)), max_shrink_iters: 20000, ..Config::default() };
+                    let cfg = Config { cases, failure_persistence: None, rng_seed: RngSeed::Fixed(mix(mix(seed, if c05 { 505 } else if c06 { 606 } else { 2020 }), wk as u64)), max_shrink_iters: 20000, ..Config::default() };
                     let mut runner = TestRunner::new(cfg);
                     let strat = (any::<bool>(), 0u8..6, 0u8..7, 0u8..4, proptest::collection::vec(any::<[u8; 3]>(), 0..=24), 0u8..96).prop_map(|(is_set, cap, dcap, us, ops, rj)| {
                         let n = SRC_CAPS[cap as usize];
@@ -1097,7 +1165,7 @@ fn main() {
     }
     // corpus replay
     let mut corpus = 0;
-    if let Ok(rd) = std::fs::read_dir(verif_dir().join("corpus").join(if c05 { "C05-serde" } else { "C20" })) {
+    if let Ok(rd) = std::fs::read_dir(verif_dir().join("corpus").join(if c05 { "C05-serde" } else if c06 { "C06-serde" } else { "C20" })) {
         let mut files: Vec<PathBuf> = rd.filter_map(|e| e.ok().map(|e| e.path())).collect();
         files.sort();
         for f in files {
@@ -1181,7 +1249,7 @@ fn main() {
             J::O(vec![
                 ("evaluations".into(), J::N(evals as f64)),
                 ("distinct_nontrivial".into(), J::N(nt.len() as f64)),
-                ("rule".into(), J::S(if c05 { "feature serde: generated entry / element streams WITH repeated keys (at most M distinct) deserialized into Map<u8,u32,M> / Set<u16,M> through a token-stream format (size hints exact and absent), bincode(legacy) bytes written by hand and serde's value deserializers; every container that comes back is checked against C05's standing invariants; non-trivial = stream of >= 3 entries with a repeated key; distinct = case hash".into() } else { "contents built by generated insert/remove histories (internal order varied) in Map<u8,u32,N> / Set<u16,N>, N in {0,1,2,3,5,8}, target capacity M in {0,1,2,3,5,8,12}; round trips through a recording Serializer + serde value deserializers and through bincode(legacy); non-trivial = len >= 2, state produced by >=1 swap-removal, M != N; distinct = case hash".to_string() })),
+                ("rule".into(), J::S(if c06 { "feature serde: the round trips of C20 (contents from generated histories, Map<u8,u32,N> / Set<u16,N>) under a counting global allocator: serialize into a byte slice, deserialize from a byte slice (bincode) and from a token stream with exact and with absent size hints, deserialize_in_place; every such call that succeeds must make zero allocator requests; non-trivial as C20; distinct = case hash".into() } else if c05 { "feature serde: generated entry / element streams WITH repeated keys (at most M distinct) deserialized into Map<u8,u32,M> / Set<u16,M> through a token-stream format (size hints exact and absent), bincode(legacy) bytes written by hand and serde's value deserializers; every container that comes back is checked against C05's standing invariants; non-trivial = stream of >= 3 entries with a repeated key; distinct = case hash".into() } else { "contents built by generated insert/remove histories (internal order varied) in Map<u8,u32,N> / Set<u16,N>, N in {0,1,2,3,5,8}, target capacity M in {0,1,2,3,5,8,12}; round trips through a recording Serializer + serde value deserializers and through bincode(legacy); non-trivial = len >= 2, state produced by >=1 swap-removal, M != N; distinct = case hash".to_string() })),
                 ("samples".into(), J::A(if sample_j.is_empty() { vec![J::S("none".into())] } else { sample_j })),
                 ("oracle_checks".into(), J::N(st.checks as f64)),
                 ("value_deserializer_roundtrips".into(), J::N(st.value_roundtrips as f64)),
@@ -1211,9 +1279,9 @@ fn main() {
     s.push('\n');
     // C05's evidence file is written by the history runner; this part is attached to it
     let suffix = std::env::var("VERIF_EVIDENCE_SUFFIX").unwrap_or_default();
-    let dir = if c05 || !suffix.is_empty() { std::env::var("VERIF_EVIDENCE_DIR").map(PathBuf::from).unwrap_or_else(|_| verif_dir().join("work")) } else { verif_dir().join("evidence") };
+    let dir = if c05 || c06 || !suffix.is_empty() { std::env::var("VERIF_EVIDENCE_DIR").map(PathBuf::from).unwrap_or_else(|_| verif_dir().join("work")) } else { verif_dir().join("evidence") };
     let _ = std::fs::create_dir_all(&dir);
-    let _ = std::fs::write(dir.join(if c05 { format!("C05.serde{suffix}.json") } else { format!("C20{suffix}.json") }), s);
+    let _ = std::fs::write(dir.join(if c05 { format!("C05.serde{suffix}.json") } else if c06 { format!("C06.serde{suffix}.json") } else { format!("C20{suffix}.json") }), s);
     println!("{pname} {mode} (serde feature): {evals} cases, {} distinct non-trivial, {} oracle checks, {wall:.1}s", nt.len(), st.checks);
     if let Some((_, v)) = viol {
         println!("violated: {v}");
